@@ -34,13 +34,19 @@ HEADER_SETS = [
     [(b"X-W", b"  \tpadded \t ")],
     [(b"X-F", b"a"), (None, b"  b")],
     [(b"Server-Software", b"x"), (b"Remote-Host", b"y"), (b"Remote-Port", b"1")],
+    [(b"X-T", b""), (b"X-T", b"a")],
+    [(b"X-T", b"a"), (b"X-T", b"")],
+    [(b"X-T", b""), (b"X-T", b""), (b"X-T", b"b")],
+    [(b"X-T", b" "), (b"x-t", b"0")],
 ]
-BODIES = ["none", "cl", "chunked", "big-cl", "big-chunked"]
+BODIES = ["none", "cl", "chunked", "big-cl", "big-chunked", "huge-cl", "huge-chunked"]
 CONFIGS = [
     dict(url_prefix="", url_scheme="http", unix=False, server_name="waitress.invalid"),
     dict(url_prefix="/p", url_scheme="https", unix=False, server_name="srv.example"),
     dict(url_prefix="/p/q", url_scheme="http", unix=True, server_name="waitress.invalid"),
     dict(url_prefix="/p/", url_scheme="http", unix=False, server_name="waitress.invalid"),
+    # bodies that first fill an in-memory file (>= 8192 bytes) and then migrate to a temporary file
+    dict(url_prefix="", url_scheme="http", unix=False, server_name="waitress.invalid", inbuf_overflow=9000),
 ]
 _envs = {}
 
@@ -49,7 +55,7 @@ def get_env(ci):
     e = _envs.get(ci)
     if e is None:
         c = CONFIGS[ci]
-        e = seq.Env(None, unix=c["unix"], url_prefix=c["url_prefix"], url_scheme=c["url_scheme"], server_name=c["server_name"], inbuf_overflow=16)
+        e = seq.Env(None, unix=c["unix"], url_prefix=c["url_prefix"], url_scheme=c["url_scheme"], server_name=c["server_name"], inbuf_overflow=c.get("inbuf_overflow", 16))
         _envs[ci] = e
     return e
 
@@ -158,6 +164,13 @@ def build_request(method, target, version, headers, body):
     elif body == "big-chunked":
         fields.append((b"Transfer-Encoding", b"chunked", "te"))
         payload = gen.chunked_body([17, 9])
+    elif body == "huge-cl":
+        fields.append((b"Content-Length", b"10000", "cl"))
+        payload = bytes((i * 7 + 1) % 251 for i in range(10000))
+    elif body == "huge-chunked":
+        fields.append((b"Transfer-Encoding", b"chunked", "te"))
+        data = bytes((i * 5 + 3) % 251 for i in range(10000))
+        payload = b"1770\r\n" + data[:6000] + b"\r\nfa0\r\n" + data[6000:] + b"\r\n0\r\n\r\n"
     return gen.render(gen.message(method, target, version, fields, payload))
 
 
@@ -243,7 +256,11 @@ def cases(tier):
     methods = [(b"GET", b"HTTP/1.1"), (b"POST", b"HTTP/1.0"), (b"OPTIONS", b"HTTP/1.1")] if tier == "quick" else [(m, v) for m in (b"GET", b"POST", b"OPTIONS", b"PURGE") for v in (b"HTTP/1.1", b"HTTP/1.0")]
     for ci in range(len(CONFIGS)):
         for (method, ver), target, hs, body in itertools.product(methods, TARGETS, range(len(HEADER_SETS)), BODIES):
-            if body in ("chunked", "big-chunked") and ver != b"HTTP/1.1":
+            if body in ("chunked", "big-chunked", "huge-chunked") and ver != b"HTTP/1.1":
+                continue
+            if body.startswith("huge") != ("inbuf_overflow" in CONFIGS[ci]):
+                continue
+            if body.startswith("huge") and (hs > 1 or target not in (b"/", b"/a?x=1&y=%20")):
                 continue
             if tier == "quick" and body.startswith("big") and hs % 3:
                 continue
